@@ -31,7 +31,9 @@ Inductive sem_op : Type :=
 | SemWait (i : nat) (c tmo : Z)          (* sem_wait i c t      sem[i].wait(c, Timeout(t)) *)
 | SemWaitI (i : nat) (c tmo : Z)         (* sem_waiti i c t     sem[i].wait_interruptible(c, Timeout(t)) *)
 | SemSignal (i : nat) (n : Z)            (* sem_signal i n      sem[i].signal(n) *)
-| SemCount (i : nat).                    (* sem_count i         sem[i].count() *)
+| SemCount (i : nat)                     (* sem_count i         sem[i].count() *)
+| SemHead (i : nat).                     (* sem_head i          demand of the waiter at the head of sem[i]'s
+                                            queue (thread::semaphore_count of q.th), 0 if none *)
 
 (* one fine-grained state per decl (a dummy for decls that are not semaphores) *)
 Definition U : Type := list state.
@@ -190,6 +192,14 @@ Definition sem_step (st : K.state U) (t : nat) (o : sem_op) (k : K.kont) : K.sta
   | SemCount i =>
       match nth_error (K.s_user st) i with
       | Some f => (st, P.ARet (m_count f) 0)
+      | None => (st, P.ARet P.SKIPPED 0)
+      end
+  | SemHead i =>
+      match nth_error (K.s_user st) i with
+      | Some f => match K.wq_get st (K.QUser i) with
+                  | x :: _ => (st, P.ARet (t_semcnt (getth f x)) 0)
+                  | [] => (st, P.ARet 0 0)
+                  end
       | None => (st, P.ARet P.SKIPPED 0)
       end
   end.
